@@ -384,6 +384,25 @@ func cmdCheck(args []string) {
 	violations := 0
 	var knownHit []string
 	exit := 0
+	// a failed assertion is assumed afterwards, which can make later code
+	// unreachable: vacuous covers of a function that has another failed
+	// obligation are collateral and not reported separately
+	failedFuncs := map[string]bool{}
+	for _, o := range failed {
+		if !o.ExpectSat {
+			failedFuncs[o.Func] = true
+		}
+	}
+	{
+		var keep []*Oblig
+		for _, o := range failed {
+			if o.ExpectSat && failedFuncs[o.Func] {
+				continue
+			}
+			keep = append(keep, o)
+		}
+		failed = keep
+	}
 	replayDir := filepath.Join(root, "replays", *prop)
 	if *replayDirFlag != "" {
 		replayDir = *replayDirFlag
